@@ -15,6 +15,7 @@ From Coq Require Import List String ZArith Bool.
 Import ListNotations.
 From KV Require Import Base.Bytes Model.Ast Model.Value Model.Eval Model.Checker
                        Spec.Typing Proofs.CheckerProofs Proofs.SelectProofs Proofs.TypeSafetyProofs.
+From KV Require Model.ParseCheck Proofs.FieldCyclesProofs.
 Open Scope string_scope.
 
 (* Soundness of the checker, for every expression tree the parser can build (no field
@@ -51,24 +52,96 @@ Theorem check_complete : forall (fo : fops) (ctx : cctx) (e : expr) (t : sty) (a
 Proof. exact complete_expr_typed. Qed.
 Print Assumptions check_complete.
 
-(* Whole statements through build_check = Parser.Parse's checks + the call validation of
-   BuildPlan: SELECT (fields with names, WHERE, ORDER BY), PUT, REMOVE, DELETE, against
-   [stmt_typed] (Spec/Typing.v: select_typed / put_typed / remove_typed / delete_typed).
-   _partial: [stmt_fields_plain] -- the field definitions of a SELECT use no field names
-   themselves (names in WHERE and ORDER BY are covered; a field that refers to another field is
-   rewritten in place by the Go checker and is C05's subject); GROUP BY and the consistency
-   rules of the aggregation plan are outside the twin.
-   Full statement (not proved): the same without stmt_fields_plain and with GROUP BY. *)
+(* Whole statements through build_check = Parser.Parse's checks (resolveFieldNames, the ORDER BY
+   lookups, WHERE, ValidateFields; Validate of PUT / REMOVE / DELETE) + the call validation of
+   BuildPlan, against [stmt_typed] (Spec/Typing.v: select_typed / put_typed / remove_typed /
+   delete_typed).  In a SELECT a field definition may use the names of other fields, defined
+   BEFORE OR AFTER it, to any depth; Spec/Typing.v types every definition, the WHERE clause and
+   the ORDER BY names under the environment in which each field name has the type of its
+   definition (the fixed point [select_env]).
+   Premises ([stmt_fields_ok], SELECT only):
+     fields_ranked   the references between the fields are acyclic, stated as a ranking: a
+                     definition only uses field names of smaller rank, ranks stay below the
+                     number of fields.  This is what SelectStmt.checkFieldCycles establishes
+                     before anything is resolved: select_check_sound_cycles_partial /
+                     select_check_complete_cycles_partial below take the twin of that test
+                     (Model/ParseCheck.v check_cycles, compared with the Go code by C17) as the
+                     premise instead (cycle_test_gives_ranking).  [ranked_b] computes a ranking
+                     (ranked_b_sound), so the premise can also be evaluated on a statement.
+     fields_no_bare  no field definition consists of a field name alone (`zq1 as zq0`): the Go
+                     code never resolves such a field -- it stands for the text "zq1", which is
+                     C05's subject -- while the typing rules read the name as its definition.
+   _partial: the two premises above; GROUP BY and the consistency rules of the aggregation plan
+   are outside the twin.
+   Full statement (not proved): the same without fields_no_bare, and with GROUP BY. *)
+Theorem build_check_sound_fieldrefs_partial : forall (fo : fops) (s s2 : stmt),
+  build_check fo true s = Ok s2 -> stmt_no_refs s = true -> stmt_params_static s2 = true ->
+  stmt_fields_ok s -> stmt_typed fo s = true.
+Proof. exact build_check_sound. Qed.
+Print Assumptions build_check_sound_fieldrefs_partial.
+
+Theorem build_check_complete_fieldrefs_partial : forall (fo : fops) (s : stmt),
+  stmt_typed fo s = true -> stmt_fields_ok s ->
+  exists s2, build_check fo true s = Ok s2.
+Proof. exact build_check_complete_typed. Qed.
+Print Assumptions build_check_complete_fieldrefs_partial.
+
+(* the computable form of the premises *)
+Theorem fields_ok_decidable_witness : forall fields : list (string * expr),
+  ranked_b fields = true -> no_bare_b fields = true ->
+  fields_ranked fields /\ fields_no_bare fields.
+Proof. intros f Hr Hb. split; [exact (ranked_b_sound f Hr)|exact (no_bare_b_sound f Hb)]. Qed.
+Print Assumptions fields_ok_decidable_witness.
+
+(* The acyclicity premise discharged by the parser's own test: a field list that
+   SelectStmt.checkFieldCycles lets through (twin check_cycles = CNone: a depth-first search
+   with the marks unvisited / visiting / done; proved by the invariant "the fields marked done
+   can be ranked, and everything a done field refers to is done") has a ranking. *)
+Theorem cycle_test_gives_ranking : forall (names : list string) (fields : list expr),
+  ParseCheck.check_cycles names fields = ParseCheck.CNone ->
+  Forall (fun e => no_refs e = true) fields ->
+  List.length names = List.length fields ->
+  fields_no_bare (combine names fields) ->
+  fields_ranked (combine names fields).
+Proof. exact FieldCyclesProofs.check_cycles_ranked. Qed.
+Print Assumptions cycle_test_gives_ranking.
+
+(* ... so, for a SELECT as Parser.Parse hands it to its checks (FieldNames zipped with Fields,
+   the cycle test passed): accepted => typed, typed => accepted, whatever the order in which
+   the fields refer to each other.  _partial: fields_no_bare; GROUP BY outside the twin. *)
+Theorem select_check_sound_cycles_partial :
+  forall (fo : fops) (names : list string) (fields : list expr) (w : expr) (order : list (nat * string)) (s2 : stmt),
+  ParseCheck.check_cycles names fields = ParseCheck.CNone -> List.length names = List.length fields ->
+  build_check fo true (SSelect (combine names fields) w order) = Ok s2 ->
+  fields_no_bare (combine names fields) ->
+  stmt_no_refs (SSelect (combine names fields) w order) = true ->
+  stmt_params_static s2 = true ->
+  select_typed fo (combine names fields) w order = true.
+Proof. exact FieldCyclesProofs.select_sound_cycles. Qed.
+Print Assumptions select_check_sound_cycles_partial.
+
+Theorem select_check_complete_cycles_partial :
+  forall (fo : fops) (names : list string) (fields : list expr) (w : expr) (order : list (nat * string)),
+  ParseCheck.check_cycles names fields = ParseCheck.CNone -> List.length names = List.length fields ->
+  select_typed fo (combine names fields) w order = true ->
+  fields_no_bare (combine names fields) ->
+  stmt_no_refs (SSelect (combine names fields) w order) = true ->
+  exists s2, build_check fo true (SSelect (combine names fields) w order) = Ok s2.
+Proof. exact FieldCyclesProofs.select_complete_cycles. Qed.
+Print Assumptions select_check_complete_cycles_partial.
+
+(* The theorems as they stood before fields could refer to fields: [stmt_fields_plain] -- the
+   field definitions of a SELECT use no field names themselves -- is the special case rank 0. *)
 Theorem build_check_sound_partial : forall (fo : fops) (s s2 : stmt),
   build_check fo true s = Ok s2 -> stmt_no_refs s = true -> stmt_params_static s2 = true ->
   stmt_fields_plain s -> stmt_typed fo s = true.
-Proof. exact build_check_sound. Qed.
+Proof. intros fo s s2 H Hn Hp Hpl. exact (build_check_sound fo s s2 H Hn Hp (stmt_plain_ok s Hpl)). Qed.
 Print Assumptions build_check_sound_partial.
 
 Theorem build_check_complete_partial : forall (fo : fops) (s : stmt),
   stmt_typed fo s = true -> stmt_fields_plain s ->
   exists s2, build_check fo true s = Ok s2.
-Proof. exact build_check_complete_typed. Qed.
+Proof. intros fo s H Hpl. exact (build_check_complete_typed fo s H (stmt_plain_ok s Hpl)). Qed.
 Print Assumptions build_check_complete_partial.
 
 (* the statement forms without field names, no side condition on fields *)
@@ -218,6 +291,37 @@ Proof.
   split; [reflexivity|]. split; [repeat constructor|]. reflexivity.
 Qed.
 
+(* select zq0 + 'y' as zq2, zq1 + 'x' as zq0, key as zq1 where zq2 > 'a' order by zq0: every field
+   is used before it is defined, two references deep; the premises of the fieldrefs theorems
+   hold, the statement is typed and accepted *)
+Definition ex_fwd_fields : list (string * expr) :=
+  [("zq2", EBin 11 OAdd (EName 7 "zq0") (EStr 13 "y"));
+   ("zq0", EBin 29 OAdd (EName 25 "zq1") (EStr 31 "x"));
+   ("zq1", EField 43 KeyKW)].
+Definition ex_fwd : stmt :=
+  SSelect ex_fwd_fields (EBin 64 OGt (EName 60 "zq2") (EStr 66 "a")) [(79, "zq0")].
+
+Example build_check_fieldrefs_nonvacuous :
+  (exists s2, build_check no_floats true ex_fwd = Ok s2 /\ stmt_params_static s2 = true) /\
+  stmt_no_refs ex_fwd = true /\ stmt_fields_ok ex_fwd /\ ~ stmt_fields_plain ex_fwd /\
+  stmt_typed no_floats ex_fwd = true.
+Proof.
+  split; [eexists; split; vm_compute; reflexivity|].
+  split; [reflexivity|]. split; [apply fields_ok_decidable_witness; vm_compute; reflexivity|].
+  split; [|vm_compute; reflexivity].
+  intros H. cbn in H. inversion H as [|? ? H1 _]. discriminate H1.
+Qed.
+
+(* ... and the cycle test lets it through (while `zq1 + 'x' as zq0, zq0 + 'y' as zq1` is stopped
+   at the name that closes the cycle) *)
+Example cycle_test_nonvacuous :
+  ParseCheck.check_cycles (map fst ex_fwd_fields) (map snd ex_fwd_fields) = ParseCheck.CNone /\
+  combine (map fst ex_fwd_fields) (map snd ex_fwd_fields) = ex_fwd_fields /\
+  ParseCheck.check_cycles ["zq0"; "zq1"]
+    [EBin 11 OAdd (EName 7 "zq1") (EStr 13 "x"); EBin 29 OAdd (EName 25 "zq0") (EStr 31 "y")]
+  = ParseCheck.CErr 25.
+Proof. repeat split; vm_compute; reflexivity. Qed.
+
 Example put_complete_nonvacuous :
   put_typed no_floats [(EStr 5 "k", EBin 18 OAdd (EStr 10 "v") (EField 20 KeyKW))] = true /\
   build_check no_floats true (SPut [(EStr 5 "k", EBin 18 OAdd (EStr 10 "v") (EField 20 KeyKW))])
@@ -272,3 +376,50 @@ Proof.
   repeat split; vm_compute; reflexivity.
 Qed.
 Print Assumptions check_complete_pinned_refuted.
+
+(* The repaired defect (fix: "select fields were type checked against fields whose names were not
+   resolved yet").  select zq0 + 1 as zq2, zq1 + 'x' as zq0, key as zq1 where key > 'a':
+   zq2 adds a number to the text zq0.  The pre-fix Parse ([build_check_pinned]: one pass over the
+   fields in order, no resolveFieldNames) checked zq2 while zq0 = zq1 + 'x' still held the
+   unresolved name zq1 -- a number -- and ACCEPTED the statement (batch mode then failed with an
+   operand-type error, row mode returned text + number); the typing rules reject it, the
+   premises of build_check_sound_fieldrefs_partial hold for it, and the repaired checker rejects
+   it at zq0 (offset 7).  With the same fields in the other order both variants reject. *)
+Definition fwd_witness_fields : list (string * expr) :=
+  [("zq2", EBin 11 OAdd (EName 7 "zq0") (ENum 13 "1"));
+   ("zq0", EBin 27 OAdd (EName 23 "zq1") (EStr 29 "x"));
+   ("zq1", EField 41 KeyKW)].
+Definition fwd_witness : stmt :=
+  SSelect fwd_witness_fields (EBin 62 OGt (EField 58 KeyKW) (EStr 64 "a")) [].
+
+Theorem forward_reference_pinned_refuted :
+  (exists s2, build_check_pinned no_floats true fwd_witness = Ok s2 /\ stmt_params_static s2 = true) /\
+  stmt_no_refs fwd_witness = true /\ stmt_fields_ok fwd_witness /\
+  stmt_typed no_floats fwd_witness = false /\
+  build_check no_floats true fwd_witness = Err (ESyntax 7) /\
+  (exists p, build_check_pinned no_floats true
+               (SSelect (rev fwd_witness_fields) (EBin 62 OGt (EField 58 KeyKW) (EStr 64 "a")) []) = Err (ESyntax p)).
+Proof.
+  split; [eexists; split; vm_compute; reflexivity|].
+  split; [reflexivity|]. split; [apply fields_ok_decidable_witness; vm_compute; reflexivity|].
+  split; [vm_compute; reflexivity|]. split; [vm_compute; reflexivity|].
+  eexists; vm_compute; reflexivity.
+Qed.
+Print Assumptions forward_reference_pinned_refuted.
+
+(* the same defect through the WHERE clause, which the pre-fix Parse checked before any field
+   was resolved, whatever the order of the fields: select key as zq1, zq1 + 'x' as zq0 where
+   zq0 > 1 was accepted (and failed on the first row); ... where zq0 > 'a' was rejected although
+   well typed *)
+Theorem where_reference_pinned_refuted :
+  let fields := [("zq1", EField 7 KeyKW); ("zq0", EBin 23 OAdd (EName 19 "zq1") (EStr 25 "x"))] in
+  let bad := SSelect fields (EBin 46 OGt (EName 42 "zq0") (ENum 48 "1")) [] in
+  let good := SSelect fields (EBin 46 OGt (EName 42 "zq0") (EStr 48 "a")) [] in
+  (exists s2, build_check_pinned no_floats true bad = Ok s2) /\ stmt_typed no_floats bad = false /\
+  (exists p, build_check no_floats true bad = Err (ESyntax p)) /\
+  (exists p, build_check_pinned no_floats true good = Err (ESyntax p)) /\ stmt_typed no_floats good = true /\
+  (exists s2, build_check no_floats true good = Ok s2).
+Proof.
+  cbv zeta. repeat split; try (eexists; vm_compute; reflexivity); vm_compute; reflexivity.
+Qed.
+Print Assumptions where_reference_pinned_refuted.
